@@ -370,3 +370,48 @@ def obligations(chk):          # noqa: F811
     simple_special(chk)
     table_obligations(chk)
     structured_predicates(chk)
+    spelling_obligations(chk)
+
+
+INSTANCE_PREDS = {"ishashable", "isproperty", "isdescriptor", "isbuiltininstance", "isstdlibinstance", "issimpleattribute", "isabstract", "iscallable"}
+SPECIAL_FORM_PREDS = {"isoptionaltype", "isuniontype", "isliteral", "isfinal", "isclassvartype", "isunresolvable", "isnonetype", "isforwardref", "isgeneric",
+                      "issubscriptedgeneric", "isstructuredtype", "isstdlibtype", "isbuiltintype", "istypealiastype", "should_unwrap"}
+
+
+def spelling_obligations(chk):
+    """Every one-argument is* predicate answers alike for two spellings of one annotation (typing.List[int] vs list[int], X | None vs
+    Optional[X], X | Y vs Union[X, Y]); ground check on the real functions with cold caches."""
+    import inspect as _inspect
+    from typelib.py import inspection
+    from props.concrete_util import clear_typelib_caches
+    pairs = [(int | None, typing.Optional[int]), (int | str, typing.Union[int, str]), (list[int], typing.List[int]), (dict[str, int], typing.Dict[str, int]),
+             (tuple[int, ...], typing.Tuple[int, ...]), (list[int] | None, typing.Optional[typing.List[int]]), (set[int], typing.Set[int]),
+             (collections.abc.Mapping[str, int], typing.Mapping[str, int]), (type[int], typing.Type[int])]
+    preds = sorted(n for n, f in _inspect.getmembers(inspection, callable) if n.startswith("is") and not n.startswith("isinstance")
+                   and getattr(f, "__module__", "") == inspection.__name__)
+    bad, n = [], 0
+    for name in preds:
+        f = getattr(inspection, name)
+        try:
+            if len(_inspect.signature(f).parameters) != 1:
+                continue
+        except (TypeError, ValueError):
+            continue
+        if name in INSTANCE_PREDS:
+            continue                    # predicates about values, not annotations
+        for a, b in pairs:
+            is_union_pair = isinstance(a, types.UnionType)
+            if is_union_pair and name not in SPECIAL_FORM_PREDS:
+                continue                # class-valued predicates applied to special forms are outside the statement's domain
+            out = []
+            for t in (a, b):
+                clear_typelib_caches()
+                try:
+                    out.append(("ret", bool(f(t))))
+                except Exception as e:
+                    out.append(("raise", type(e).__name__))
+            n += 1
+            if out[0] != out[1]:
+                bad.append(f"{name}({a!r}) -> {out[0]} but {name}({b!r}) -> {out[1]}")
+    clear_typelib_caches()
+    chk.add(Ob(f"{INSP}.is*", "predicates-answer-alike-for-both-spellings-of-an-annotation", "ground", [], z3.BoolVal(not bad), {"pairs": n, "bad": bad[:6]}))
